@@ -158,6 +158,26 @@ type c19S31 struct {
 	B    string `json:"b" parser:"@Int?"`
 }
 
+// right-recursive list whose item starts with optional terms (no left recursion: Item always consumes a token)
+type c19Item struct {
+	Neg  bool   `@"-"?`
+	Tags string `( "#" @Ident )?`
+	Name string `@Ident`
+}
+type c19List struct {
+	Head c19Item  `@@`
+	Tail *c19List `@@?`
+}
+type c19Decl struct {
+	Attrs []string `( "#" @Ident )*`
+	Name  string   `"fn" @Ident`
+	Body  *c19Body `@@`
+}
+type c19Body struct {
+	Decl *c19Decl `  @@`
+	End  bool     `| @";"`
+}
+
 // self-referential slice and pointer types as field types
 type c19SelfSlice []c19SelfSlice
 type c19SelfPtr *c19SelfPtr
@@ -262,6 +282,8 @@ var c19StaticCases = []struct {
 	{"@Ident? into a pointer type that points to itself", c19B[c19S29](), false},
 	{"@@* into a named slice of an anonymous struct that contains the named slice", c19B[c19S30](), false},
 	{"fields with an empty parser key and other tag keys", c19B[c19S31](), true},
+	{"right-recursive list whose item begins with optional terms", c19B[c19List](), true},
+	{"declaration with optional leading attributes, recursive through its body", c19B[c19Decl](), true},
 	{"union with a nil member", c19B[c19S23](participle.Union[c19Iface](c19M1{}, nil)), false},
 	{"Elide of an unknown token type", c19B[c19S11](participle.Elide("Nope")), false},
 	{"Map on an unknown token type", c19B[c19S11](participle.Upper("Nope")), false},
